@@ -3,7 +3,7 @@
    specification: coq/spec/MmrSpec.v (peaks_spec = roots of the perfect trees over the chunks of the leaf
    list given by the binary expansion of its length, highest first). *)
 From Coq Require Import ZArith List Bool.
-From TF Require Import Word MmrIdxLocal Mmr MmrSpec MmrTerm MmrProofs MmrSmall MmrUpdates.
+From TF Require Import Word MmrIdxLocal Mmr MmrSpec MmrTerm MmrProofs MmrSmall MmrUpdates MmrBatch MmrHistory.
 Import ListNotations.
 Open Scope Z_scope.
 
@@ -25,26 +25,20 @@ Theorem C11_mutate_commits : forall (D : Type) (H : D -> D -> D) (deq : D -> D -
 Proof. exact mutate_spec. Qed.
 Print Assumptions C11_mutate_commits.
 
-(* history_commits, FULL statement: any valid history (appends, mutations, batch mutations, all with valid
-   proofs) from a committing accumulator ends in the accumulator built from scratch over the final list *)
-Definition C11_history_commits_full : Prop :=
-  forall (D : Type) (H : D -> D -> D) (deq : D -> D -> bool) (dflt : D) (ops : list (mop D)) (ls : list D)
-         (a : accumulator D),
+(* history_commits: after ANY valid history (appends, single-leaf mutations, batch mutations in any
+   interleaving, every mutation carried out with the valid proof) from a committing accumulator with fewer
+   than 2^63 leafs, the accumulator's leaf count and peaks are those built from scratch over the final leaf
+   list.  mop / mops_valid / acc_run / commits are defined in proofs/MmrProofs.v (Section History);
+   deq decides equality of digests (it is used by the batch routine's `changed` test only). *)
+Theorem C11_history_commits : forall (D : Type) (H : D -> D -> D) (deq : D -> D -> bool) (dflt : D),
+  (forall x y, deq x y = true <-> x = y) ->
+  forall (ops : list (mop D)) (ls : list D) (a : accumulator D),
     commits D H dflt a ls -> zlength ls < 2 ^ 63 -> mops_valid D H dflt ls ops ->
     acc_run D H deq a ops =
-    Some (zlength (run D ls (map (erase D) ops)), peaks_spec D H dflt (run D ls (map (erase D) ops))).
-
-(* PARTIAL: proved for histories of appends and single-leaf mutations in any interleaving; the batch
-   step (batch_mutate_leaf_and_update_mps, node-index keyed map) is covered by the correspondence only *)
-Theorem C11_history_commits_partial : forall (D : Type) (H : D -> D -> D) (deq : D -> D -> bool) (dflt : D)
-    (ops : list (mop D)) (ls : list D) (a : accumulator D),
-  commits D H dflt a ls -> zlength ls < 2 ^ 63 ->
-  forallb (fun o => negb (is_batch D o)) ops = true ->
-  mops_valid D H dflt ls ops ->
-  exists ls', ls' = run D ls (map (erase D) ops) /\
-              acc_run D H deq a ops = Some (zlength ls', peaks_spec D H dflt ls') /\ zlength ls' < 2 ^ 63.
-Proof. exact history_commits_nobatch. Qed.
-Print Assumptions C11_history_commits_partial.
+    Some (zlength (run D ls (map (erase D) ops)), peaks_spec D H dflt (run D ls (map (erase D) ops))) /\
+    zlength (run D ls (map (erase D) ops)) < 2 ^ 63.
+Proof. exact history_commits. Qed.
+Print Assumptions C11_history_commits.
 
 Theorem C11_empty_commits : forall (D : Type) (H : D -> D -> D) (dflt : D), commits D H dflt (0, []) [].
 Proof. exact commits_empty. Qed.
@@ -85,6 +79,21 @@ Theorem C11_verify_batch_update_iff : forall (D : Type) (H : D -> D -> D) (deq :
     Some (list_deq D deq (peaks_spec D H dflt (apply_muts D ls ivs ++ appended)) new_peaks).
 Proof. exact verify_batch_update_iff. Qed.
 Print Assumptions C11_verify_batch_update_iff.
+
+(* the batch step on its own: peaks, tracked proofs and the `modified` list *)
+Theorem C11_batch_mutate_commits : forall (D : Type) (H : D -> D -> D) (deq : D -> D -> bool) (dflt : D),
+  (forall x y, deq x y = true <-> x = y) ->
+  forall (ls : list D), zlength ls < 2 ^ 63 ->
+  forall (ms : list (Z * D)) (idxs : list Z),
+    inrange D ls ms -> distinctb (map fst ms) = true -> Forall (fun i => 0 <= i < zlength ls) idxs ->
+    exists md,
+      batch_mutate_leaf_and_update_mps D H deq (zlength ls, peaks_spec D H dflt ls)
+        (map (path D H dflt ls) idxs) idxs (with_proofs D H dflt ls ms) =
+      Some ((zlength ls, peaks_spec D H dflt (apply_muts D ls ms)),
+            map (path D H dflt (apply_muts D ls ms)) idxs, md) /\
+      md_spec D H dflt ls (apply_muts D ls ms) 0 idxs md.
+Proof. exact bmlu_spec. Qed.
+Print Assumptions C11_batch_mutate_commits.
 
 (* lists with repeated or out-of-range indices are rejected *)
 Theorem C11_rejects_dup_oob : forall (D : Type) (H : D -> D -> D) (deq : D -> D -> bool)
